@@ -26,9 +26,9 @@ ASSUMPTIONS = [
     "an unknown setting may be refused with any exception",
     "engine discovery may be repeated whenever the implementation likes (before every request, say) -- its datagrams must carry the timeout / retries in force -- with one exception taken from the statement's words 'behaves exactly as before entering': if the request issued just before a block was entered needed no discovery, the first request after the block is left needs none either",
 ]
-_REQUIRED_BASE = {"depth>=2": 0.15, "exceptional_exit": 0.12, "family_switch": 0.20, "bad_setting": 0.10, "v3_request": 0.10}
+_REQUIRED_BASE = {"depth>=2": 0.09, "exceptional_exit": 0.072, "family_switch": 0.12, "bad_setting": 0.06, "v3_request": 0.06}   # (60 % of the fractions first required: room for seed-to-seed variation)
 # generator health of the newer case families (quick tier: the thorough tier dilutes them with enumerated units)
-_REQUIRED_QUICK = {'bad_setting_with_family_switch': 0.05}
+_REQUIRED_QUICK = {"bad_setting_with_family_switch": 0.03}   # (60 % of the fractions first required: room for seed-to-seed variation)
 
 
 def REQUIRED_CLASSES(tier):
